@@ -865,7 +865,14 @@ func runRoundTrip(t *testing.T, c *Case, cr *CaseResult) *CaseResult {
 		var out decodeOutcome
 		var encErr error
 		res, _ := runSim(t, cr, prop, c.Sim, func() {
-			p := &simPipe{ch: make(chan []byte, cfg.PipeCap), chunk: cfg.PipeChunk}
+			// every chunk is a handful of scheduler decisions: a document with
+			// a very long line goes through in pieces of at least 4 KB so that
+			// the run stays inside the step budget
+			chunk := cfg.PipeChunk
+			if len(text) > 50000 && chunk < 4096 {
+				chunk = 4096
+			}
+			p := &simPipe{ch: make(chan []byte, cfg.PipeCap), chunk: chunk}
 			done := make(chan struct{})
 			simrt.Go("harness:encoder", func() {
 				encErr = gedcom.NewEncoder(p, doc).Encode()
@@ -1264,7 +1271,29 @@ func pick2(k int) int {
 func genTotalityCase(prop, tier string, r *rand.Rand) *Case {
 	cfg := &StreamCfg{Mode: "totality", AllowMultiLine: r.IntN(2) == 0, AllowInvalidIndents: r.IntN(2) == 0}
 	var b []byte
-	switch r.IntN(7) {
+	switch r.IntN(8) {
+	case 7: // walks over the levels: records that end deep, lines that skip levels
+		n := 3 + r.IntN(10)
+		level := 0
+		b = append(b, "0 HEAD\n"...)
+		for i := 0; i < n; i++ {
+			switch r.IntN(5) {
+			case 0:
+				level = 0
+			case 1:
+				level++
+			case 2:
+				level += 2
+			case 3:
+				if level > 0 {
+					level--
+				}
+			}
+			if level > 6 {
+				level = r.IntN(4)
+			}
+			b = append(b, fmt.Sprintf("%d %s v%d\n", level, pick(r, []string{"NOTE", "NAME", "GIVN", "BIRT", "DATE", "INDI", "SEX"}), i)...)
+		}
 	case 6: // a line that ends right at, before or after a buffer boundary
 		total := pick(r, []int{200, 250, 254, 255, 256, 257, 258, 260, 510, 512, 514, 4094, 4096, 4098, 65534, 65536, 65538})
 		tail := pick(r, []string{"", "é", "Ж", "€", "\U0001F600", "\xff", "é\xc3"})
@@ -1469,6 +1498,39 @@ func runTotality(t *testing.T, c *Case, cr *CaseResult) *CaseResult {
 			if o.err == nil && o.panicVal == "" && o.doc != nil {
 				cr.violate(prop+"/totality", "read error swallowed: a document is returned", fmt.Sprintf("reader failed at offset %d of %d", k, len(data)))
 			}
+		}
+	}
+	// the same Decoder asked a second time (its stream is used up: a document
+	// or an error, whatever the first call returned), with another Decoder
+	// created and used in between
+	{
+		good := "0 HEAD\n1 CHAR UTF-8\n0 @I1@ INDI\n1 NAME x /y/\n0 TRLR\n"
+		var first, second, between decodeOutcome
+		func() {
+			dec := gedcom.NewDecoder(newSimReader(data, wholePlan(), &streamStats{}))
+			dec.AllowMultiLine, dec.AllowInvalidIndents = ml, ii
+			call := func(d *gedcom.Decoder) (o decodeOutcome) {
+				defer func() {
+					if p := recover(); p != nil {
+						o.panicVal = fmt.Sprint(p)
+					}
+				}()
+				o.doc, o.err = d.Decode()
+				return o
+			}
+			first = call(dec)
+			other := gedcom.NewDecoder(newSimReader([]byte(good), wholePlan(), &streamStats{}))
+			second = call(dec)
+			between = call(other)
+		}()
+		cr.Runs++
+		cr.count("history.decoder_used_twice", 1)
+		if first.panicVal == "" {
+			judge("second Decode on the same Decoder", second, false)
+		}
+		if between.panicVal != "" || between.err != nil || between.doc == nil || len(between.doc.Nodes()) != 3 {
+			cr.violate(prop+"/totality", "a Decoder created while another one was still around does not decode its own stream",
+				fmt.Sprintf("panic=%q err=%v", between.panicVal, between.err))
 		}
 	}
 	// two decoders at work at the same time, each on its own stream: what one
